@@ -286,6 +286,22 @@ theorem essence_injective_on_payload (cfg : Cfg) (extra : List (List String)) (k
     lookup k kvs = lookup k kvs' := by
   rw [← payload_exact cfg extra kvs e k hk hd hp h, ← payload_exact cfg extra kvs' e k hk hd hp h']
 
+/-- **a handler's field hidden behind a non-mapping value is an absent field** (kopf 571b1b2; before, finding
+    C04-F13: `build` raised TypeError and the object was never processed): when `resolve(body, field)` hits a
+    value that is no mapping (`field='spec.a.b'`, `spec.a` a string, a list, null), the handler's field
+    contributes nothing — the essence is the one built without that handler, for EVERY storage configuration
+    (also through the pseudo-bodies of a MultiDiffBaseStorage: `build` only removes). -/
+theorem hidden_field_is_absent (cfg : Cfg) (extra : List (List String)) (body : J) (f : List String)
+    (h : resolveE body f = .error .typeError) : essence cfg (f :: extra) body = essence cfg extra body :=
+  essence_cons_absent (fun ⟨v, hv⟩ => by rw [h] at hv; cases hv) cfg extra
+
+example : resolveE (.obj [("spec", .obj [("a", .str "s"), ("n", .num 5)])]) ["spec", "a", "b"] = .error .typeError := by rfl
+
+/-- the guarded restoring loop of `build` never ends in a TypeError, whatever the body, the essence so far and
+    the handlers' fields. -/
+theorem handler_fields_never_type_error (src dst : J) (fs : List (List String)) :
+    cherrypickSkip src dst fs ≠ .error .typeError := cherrypickSkip_no_typeError src fs dst
+
 /-- the essence of a well-formed body is well-formed (so the diff theorems apply to essences). -/
 theorem essence_wf (cfg : Cfg) (extra : List (List String)) (b e : J) (hb : J.WF b)
     (h : essence cfg extra b = .ok e) : J.WF e :=
